@@ -35,6 +35,10 @@ def jobs_for(tier, rng):
         jobs.append({"mdp": m, "kind": "PVI", "gamma": g, "eps": eps, "period": p, "clear": k % 3 == 0,
                      "gamma_as_int": k % 4 == 0, "eps_as_int": k % 6 == 0,
                      "calls": calls, "mbs": rng.choice([2, 3, 1024]), "cert": cert, "tag": f"pvi{k}"})
+    # tens of thousands of states; the trace is reduced exactly (solver_worker.quotient)
+    for N in ([20100] if tier == "quick" else [20100, 50021]):
+        jobs.append({"mdp": gen.corridors(rng, N, [2, 3]), "kind": "PVI", "gamma": [1, 1], "eps": [1, 1], "period": 2,
+                     "clear": False, "calls": [9], "mbs": 1024, "cert": False, "quotient": True, "tag": f"corridors{N}"})
     return jobs
 
 
